@@ -383,7 +383,8 @@ def _check_pseudo_header_field_acceptability(pseudo_headers,
     # Pseudo-header fields MUST NOT appear in trailers - RFC 7540 § 8.1.2.1
     if hdr_validation_flags.is_trailer and pseudo_headers:
         raise ProtocolError(
-            "Received pseudo-header in trailer %s" % pseudo_headers
+            "Received pseudo-header in trailer %s" %
+            sorted(pseudo_headers, key=repr)
         )
 
     # If ':status' pseudo-header is not there in a response header, reject it.
@@ -398,7 +399,7 @@ def _check_pseudo_header_field_acceptability(pseudo_headers,
         if invalid_response_headers:
             raise ProtocolError(
                 "Encountered request-only headers %s" %
-                invalid_response_headers
+                sorted(invalid_response_headers, key=repr)
             )
     elif (not hdr_validation_flags.is_response_header and
           not hdr_validation_flags.is_trailer):
@@ -411,14 +412,14 @@ def _check_pseudo_header_field_acceptability(pseudo_headers,
         if invalid_request_headers:
             raise ProtocolError(
                 "Encountered response-only headers %s" %
-                invalid_request_headers
+                sorted(invalid_request_headers, key=repr)
             )
         if method != b'CONNECT':
             invalid_headers = pseudo_headers & _CONNECT_REQUEST_ONLY_HEADERS
             if invalid_headers:
                 raise ProtocolError(
                     "Encountered connect-request-only headers %s" %
-                    invalid_headers
+                    sorted(invalid_headers, key=repr)
                 )
 
 
